@@ -489,8 +489,8 @@ func TestC12(t *testing.T) {
 	// (a‴) bracket expressions around "[:" — classes, things that only look
 	// like one, and the regular expression syntax a translation might leak
 	{
-		palpha := []string{"[", "[:", ":]", "]", `\:`, ":", "alpha", "^", "a", "*", "-"}
-		salpha := []string{"a", "l", "[", ":", "]", "s", "(", "^", "1", "-", "*"}
+		palpha := []string{"[", "[:", ":]", "]", `\:`, ":", "alpha", "^", "a", "*", "-", "[=", "=]", "="}
+		salpha := []string{"a", "l", "[", ":", "]", "s", "(", "^", "1", "-", "*", "="}
 		pn := 3
 		if thorough() {
 			pn = 4
@@ -528,6 +528,25 @@ func TestC12(t *testing.T) {
 				st.EvalN(int64(len(subjects)*len(c12Modes)), nt)
 				if pi%499 == 0 {
 					st.Sample(c12Case{Patterns: []string{p}, Mode: c12Modes[pi%4], Subject: subjects[pi%len(subjects)]})
+				}
+			}
+		}
+		// "[=" (and "[:") with the closing characters only behind the next "]"
+		if sh == 0 {
+			subj3 := append(wordsUpTo([]string{"a", "=", "[", "]", "x"}, 3), "=xyz=]", "[xyz=]", "=b]", "ab]", "a=]", "[a=]x", ":x:]", "[x:]")
+			for _, p := range []string{"[[=]*=]", "[a[=]b=]", "[[=]=]", "[[=]a=]x", "[![=]*=]", "[[=]?=]", "[[:]*:]", "[a[:]b:]", "[[:]a:]x", "[[=]]*=]"} {
+				for _, s := range subj3 {
+					for _, m := range c12Modes {
+						c := c12Case{Patterns: []string{p}, Mode: m, Subject: s}
+						v, _, err := checkC12(c)
+						if err != nil {
+							fail(t, "C12", "match", c, "%v", err)
+						}
+						if v == c12Unmodelled {
+							unm++
+						}
+						total++
+					}
 				}
 			}
 		}
